@@ -565,6 +565,9 @@ impl Extensions {
                     if some_nonce {
                         utils::remove_all_headers(response.headers_mut(), "csp-nonce");
                     }
+                } else {
+                    // the nonce header is internal, also when no rule applies
+                    utils::remove_all_headers(response.headers_mut(), "csp-nonce");
                 }
             }),
             Id::new(128, "Add content security policy header"),
